@@ -199,3 +199,25 @@ func methodCallsWithPrefix(rel, recv, fn, prefix, coqName string) {
 	})
 	out.Strings[coqName] = strings.Join(names, ",")
 }
+
+// methodSource records the whitespace-normalised source text of a method body
+// (comments dropped), so that a model can state exactly which code it was written against.
+func methodSource(rel, recv, fn, coqName string) {
+	p := load(rel)
+	fd := findMethod(p, recv, fn)
+	if fd == nil || fd.Body == nil {
+		out.Missing = append(out.Missing, rel+"."+recv+"."+fn)
+		return
+	}
+	var b bytes.Buffer
+	cfg := printer.Config{Mode: printer.RawFormat}
+	cfg.Fprint(&b, fsetAll, fd.Body)
+	var lines []string
+	for _, ln := range strings.Split(b.String(), "\n") {
+		if i := strings.Index(ln, "//"); i >= 0 {
+			ln = ln[:i]
+		}
+		lines = append(lines, ln)
+	}
+	out.Strings[coqName] = strings.Join(strings.Fields(strings.Join(lines, " ")), " ")
+}
